@@ -293,3 +293,50 @@ func H_C14_no_reader() {
 		vAssert("error-not-panic", err != nil)
 	}
 }
+
+type ZRecMap map[string]ZRecMap
+type ZRecList []ZRecList
+
+type ZRecHold struct {
+	L []ZRecMap
+	M map[string]ZRecMap
+	S []ZRecList
+	I []map[string]interface{}
+	J map[string]map[string]interface{}
+}
+
+// H_C14_recursive_types: the registered Go types are themselves recursive (a map type whose values are maps of
+// the same type, a slice type of itself) or hold interface-valued maps, and the input contains a map or list that
+// contains itself: converting the decoded value to the Go type must terminate.
+func H_C14_recursive_types() {
+	tm, _ := vExtractAll(&ZRecHold{})
+	selfMap := func(ord byte) []byte { return refCat([]byte{'H'}, refStr("a"), []byte{0x51, 0x90 + ord}, []byte{'Z'}) }
+	var field string
+	var val []byte
+	switch vChoice("shape", 7) {
+	case 0: // #0 object, #1 list, #2 the map that holds itself
+		field, val = "l", refCat([]byte{0x79}, selfMap(2))
+	case 1: // #1 outer map, #2 inner map holding itself
+		field, val = "m", refCat([]byte{'H'}, refStr("k"), selfMap(2), []byte{'Z'})
+	case 2: // #1 outer map holding itself as a value
+		field, val = "m", selfMap(1)
+	case 3: // #1 list, #2 a list that holds itself
+		field, val = "s", refCat([]byte{0x79}, []byte{0x79, 0x51, 0x92})
+	case 4: // #1 a list that holds itself, assigned to the slice-of-itself type
+		field, val = "s", []byte{0x79, 0x51, 0x91}
+	case 5:
+		field, val = "i", refCat([]byte{0x79}, selfMap(2))
+	case 6:
+		field, val = "j", refCat([]byte{'H'}, refStr("k"), selfMap(2), []byte{'Z'})
+	}
+	in := refCat(refClassDef("ZRecHold", []string{field}), []byte{0x60}, val)
+	if vChoice("damage", 2) == 1 {
+		in[len(in)-2] = vUint8("octet")
+	}
+	vAllocBound(65536 + len(in))
+	vStepLimit(200000 + 20000*len(in))
+	ToObject(in, tm)
+	vStepLimit(0)
+	vAllocCheck()
+	vAssert("returned", true)
+}
